@@ -1,6 +1,6 @@
 """C01 - in first-match mode the first matching categorising rule decides merchant/category/subcategory.
 
-Exhaustive: every sequence of <= K distinct rules over a 15-block .rules alphabet x 3 preambles, and every
+Exhaustive: every sequence of <= K distinct rules over a 16-block .rules alphabet x 4 preambles, and every
 sequence of <= K rows over a 12-row legacy-CSV alphabet; each file x every transaction of a 72-element
 alphabet, through MerchantEngine.match and through the get_all_rules/get_transforms/normalize_merchant
 path that `tally up` uses (files really written to disk and loaded).
@@ -13,9 +13,9 @@ from mc.checks import rules_common as R
 
 PROPERTY = "C01"
 LEVEL = "exploration"
-RULE = ("cases = every ordered sequence of 1..K distinct blocks (K=3 quick, 4 thorough) over 15 .rules blocks "
+RULE = ("cases = every ordered sequence of 1..K distinct blocks (K=3 quick, 4 thorough) over 16 .rules blocks "
         "(10 categorising: contains/regex/and-not/amount/top-level variable/let/field/source/date; 2 tag-only; 1 unevaluable; 1 never-matching rule whose let: shadows a global; 1 rule reading a name only other rules bind) "
-        "x 3 preambles (none, variable, description transform), plus every ordered sequence of 1..K rows over 12 legacy CSV rows "
+        "x 4 preambles (none, variable, description transform), plus every ordered sequence of 1..K rows over 12 legacy CSV rows "
         "(regex, lookahead, alternation, leading parenthesis, char class, amount/date/month modifiers, tag-only row, invalid regex); each file is run on 72 "
         "transactions (8 descriptions x 3 amounts x 3 date/field/source contexts) through 2-3 public entry points. "
         "non-trivial = file in which, for some transaction, >=2 rules are true or a true tag-only rule precedes the winner; files are distinct by construction")
@@ -45,12 +45,19 @@ RULES = [
      "category": "Never"},
     # reads a name that only other rules' let: bindings define; unknown here, so it can never match
     {"name": "UsesM", "match": 'm == "77"', "category": "LeakCat"},
+    # un-parenthesised and/or mix: only the `or` branch is true for AMAZON rows
+    {"name": "AndOr", "match": 'contains("UBER") and contains("EATS") or contains("AMAZON")', "category": "Mixed", "subcategory": "AndOr"},
 ]
+# rules whose condition uses no variable / let binding: their truth is also evaluated directly with evaluate_transaction
+PLAIN = [i for i, r in enumerate(RULES) if not r.get("let") and r["name"] not in ("ByVar", "UsesM")]
 PREAMBLES = [
     [],
     ["is_large = amount > 100"],
     ['field.description = regex_replace(field.description, "^SQ \\\\*", "")'],
+    # a transform that fails for transactions without a memo field, followed by one that decides matching
+    ['field.memo = trim(field.memo)', 'field.description = regex_replace(field.description, "^SQ \\\\*", "")'],
 ]
+STRIPS_SQ = {2, 3}     # preambles whose transforms rewrite "SQ *X" to "X" (known independently of tally)
 
 CSVROWS = [
     {"pattern": "NETFLIX", "merchant": "Netflix", "category": "Subs", "subcategory": "Streaming"},
@@ -120,6 +127,23 @@ def rule_truth(p, i):
     return [x["matched"] for x in a], [x["category"] != "Unknown" for x in b]
 
 
+@functools.lru_cache(maxsize=None)
+def direct_truth(i, stripped=False):
+    """truth of a variable-free condition straight from the expression evaluator (no engine); with stripped=True on the
+    description as the file's transforms must leave it (computed here with re.sub, not by tally)."""
+    import re
+    from tally.expr_parser import evaluate_transaction, ExpressionError
+    out = []
+    for t in TXNS:
+        if stripped:
+            t = dict(t, description=re.sub(r"^SQ \*", "", t["description"]))
+        try:
+            out.append(bool(evaluate_transaction(RULES[i]["match"], R.txn_dict(t))))
+        except ExpressionError:
+            out.append(False)
+    return out
+
+
 def _expect(seq, truths, ti):
     for pos, i in enumerate(seq):
         r = RULES[i]
@@ -133,6 +157,15 @@ def check_rules_case(case):
     viol = []
     a, b = rules_results(p, seq)
     tr = [rule_truth(p, i) for i in seq]
+    if len(seq) == 1 and p in (0, 2, 3) and seq[0] in PLAIN:
+        # the engine must find a lone, variable-free rule true exactly when the evaluator finds its condition true
+        # (normalize_merchant: on the description as the transforms leave it)
+        dt_e = direct_truth(seq[0])
+        dt_ = direct_truth(seq[0], p in STRIPS_SQ)
+        for ti, t in enumerate(TXNS):
+            if tr[0][0][ti] != dt_e[ti] or tr[0][1][ti] != dt_[ti]:
+                viol.append({"kind": "engine-disagrees-with-evaluator", "detail": {"rule": RULES[seq[0]]["match"], "txn": t, "evaluator": dt_[ti],
+                                                                                   "engine_match": tr[0][0][ti], "normalize": tr[0][1][ti]}})
     base_a, base_b = rules_results(p, ())
     outcomes = set()
     nontrivial = False
